@@ -17,11 +17,14 @@ pub struct Case {
     pub ws: u8,
     pub plan: u8,
     pub start: usize,
+    /// explicit physical order / per-position gaps (layout = 255)
+    pub phys: Vec<usize>,
+    pub gaps: Vec<usize>,
 }
 
 impl Case {
     fn json(&self) -> Value {
-        json!({"kinds": self.kinds, "layout": self.layout, "gates": self.gates, "ws": self.ws, "plan": self.plan, "start": self.start})
+        json!({"kinds": self.kinds, "layout": self.layout, "gates": self.gates, "ws": self.ws, "plan": self.plan, "start": self.start, "phys": self.phys, "gaps": self.gaps})
     }
     fn from_json(v: &Value) -> Case {
         Case {
@@ -31,6 +34,8 @@ impl Case {
             ws: v["ws"].as_u64().unwrap_or(8) as u8,
             plan: v["plan"].as_u64().unwrap_or(0) as u8,
             start: v["start"].as_u64().unwrap_or(0) as usize,
+            phys: v["phys"].as_array().map(|a| a.iter().map(|x| x.as_u64().unwrap_or(0) as usize).collect()).unwrap_or_default(),
+            gaps: v["gaps"].as_array().map(|a| a.iter().map(|x| x.as_u64().unwrap_or(0) as usize).collect()).unwrap_or_default(),
         }
     }
 }
@@ -47,7 +52,8 @@ pub fn layout_for(variant: u8, n: usize) -> Layout {
 
 pub fn build(c: &Case) -> (Vec<u8>, Vec<Block>, Vec<u32>) {
     let blocks: Vec<Block> = c.kinds.iter().map(|k| plan_block(*k, c.plan, c.gates, c.ws)).collect();
-    let (body, pos) = t31_body(&plan_header(c.plan), &blocks, &layout_for(c.layout, blocks.len()));
+    let layout = if c.layout == 255 { Layout { phys: c.phys.clone(), gaps: c.gaps.clone(), ..Default::default() } } else { layout_for(c.layout, blocks.len()) };
+    let (body, pos) = t31_body(&plan_header(c.plan), &blocks, &layout);
     let mut bytes = vec![0xC3u8; c.start];
     bytes.extend_from_slice(&body);
     (bytes, blocks, pos)
@@ -107,6 +113,27 @@ pub fn check_case(ctx: &Ctx, c: &Case) -> &'static str {
     }
 }
 
+fn permutations(n: usize) -> Vec<Vec<usize>> {
+    fn rec(cur: &mut Vec<usize>, used: &mut Vec<bool>, n: usize, out: &mut Vec<Vec<usize>>) {
+        if cur.len() == n {
+            out.push(cur.clone());
+            return;
+        }
+        for i in 0..n {
+            if !used[i] {
+                used[i] = true;
+                cur.push(i);
+                rec(cur, used, n, out);
+                cur.pop();
+                used[i] = false;
+            }
+        }
+    }
+    let mut out = Vec::new();
+    rec(&mut Vec::new(), &mut vec![false; n], n, &mut out);
+    out
+}
+
 fn ordered_selections(max: usize) -> Vec<Vec<usize>> {
     let mut out = vec![vec![]];
     let mut frontier: Vec<Vec<usize>> = vec![vec![]];
@@ -161,7 +188,7 @@ pub fn run(ctx: &'static Ctx) -> (&'static str, Value, Vec<&'static str>) {
                             if !has_moment && (g != gates[0] || ws != 8) {
                                 continue;
                             }
-                            let c = Case { kinds: kinds.clone(), layout, gates: g, ws, plan, start: if (oi + idx) % 3 == 0 { 5 } else { 0 } };
+                            let c = Case { kinds: kinds.clone(), layout, gates: g, ws, plan, start: if (oi + idx) % 3 == 0 { 5 } else { 0 }, phys: vec![], gaps: vec![] };
                             let o = check_case(ctx, &c);
                             st.eval();
                             st.outcome(o);
@@ -183,6 +210,55 @@ pub fn run(ctx: &'static Ctx) -> (&'static str, Value, Vec<&'static str>) {
             st
         })
         .reduce(Stats::new, Stats::merge);
+    // layout-intensive sweep: for representative block sets, every physical permutation x every
+    // per-block gap vector over {0, S, 3} x cursor start offset S (a gap equal to the start offset,
+    // a seek after a contiguous block, ... are all in the product)
+    let sets: Vec<Vec<usize>> = vec![vec![0, 3], vec![3, 7, 0], vec![1, 2, 3, 4], vec![0, 1, 2, 3, 7]];
+    let starts: Vec<usize> = if thorough { vec![0, 1, 4, 5, 7, 28, 100, 2432] } else { vec![0, 1, 5, 28, 100] };
+    let mut lcases: Vec<Case> = Vec::new();
+    for kinds in &sets {
+        let n = kinds.len();
+        let perms = permutations(n);
+        for &start in &starts {
+            let galpha = [0usize, start, 3];
+            for gv in words(3, n) {
+                let gaps: Vec<usize> = gv.iter().map(|x| galpha[*x as usize]).collect();
+                for (pi, phys) in perms.iter().enumerate() {
+                    if !thorough && n >= 5 && pi % 7 != 0 {
+                        continue;
+                    }
+                    lcases.push(Case { kinds: kinds.clone(), layout: 255, gates: 5, ws: if pi % 2 == 0 { 8 } else { 16 }, plan: (pi % 2) as u8, start, phys: phys.clone(), gaps: gaps.clone() });
+                }
+            }
+        }
+    }
+    // all ten blocks: identity / reversed / rotated, at most two non-zero gaps
+    let all10: Vec<usize> = (0..10).collect();
+    for &start in &starts {
+        for phys in [all10.clone(), all10.iter().rev().copied().collect::<Vec<_>>(), (0..10).map(|i| (i + 3) % 10).collect::<Vec<_>>()] {
+            for a in 0..10 {
+                for b in a..10 {
+                    let mut gaps = vec![0usize; 10];
+                    gaps[a] = start;
+                    gaps[b] = if a == b { start } else { 3 };
+                    lcases.push(Case { kinds: all10.clone(), layout: 255, gates: 3, ws: 8, plan: 0, start, phys: phys.clone(), gaps });
+                }
+            }
+        }
+    }
+    let lstats: Stats = lcases
+        .par_iter()
+        .fold(Stats::new, |mut st, c| {
+            let o = check_case(ctx, c);
+            st.eval();
+            st.outcome(o);
+            st.dim("layout", "explicit");
+            st.count("layout_intensive_cases", 1);
+            st.nontrivial(format!("{:?}", c).as_bytes());
+            st
+        })
+        .reduce(Stats::new, Stats::merge);
+    let stats = stats.merge(lstats);
     // distinguishability obligation: any two same-width header fields differ in at least one plan
     let h0 = t31_body(&plan_header(0), &[], &Layout::default()).0;
     let h1 = t31_body(&plan_header(1), &[], &Layout::default()).0;
@@ -195,7 +271,7 @@ pub fn run(ctx: &'static Ctx) -> (&'static str, Value, Vec<&'static str>) {
         }
     }
     let cov = stats.coverage(
-        "block orders = all ordered selections of <=3 (thorough <=4) of the 10 block kinds plus all 1024 subsets in canonical (and reversed) order; x pointer layouts {contiguous, gap 1, gap 7, physical order reversed vs pointer table[, rotated+gap 3]} x gates x word size {8,16} x value plans; start offset 0 or 5. Oracle: per-offset field tables. non-trivial = >=2 blocks; distinct by hash of the case",
+        "block orders = all ordered selections of <=3 (thorough <=4) of the 10 block kinds plus all 1024 subsets in canonical (and reversed) order; x pointer layouts {contiguous, gap 1, gap 7, physical order reversed vs pointer table[, rotated+gap 3]} x gates x word size {8,16} x value plans; start offset 0 or 5; plus a layout-intensive sweep: four representative block sets x every physical permutation x every per-block gap vector over {0, S, 3} x cursor start offset S in {0,1,5,28,100,...}, and the full ten-block message with up to two gaps. Oracle: per-offset field tables. non-trivial = >=2 blocks; distinct by hash of the case",
         true,
         json!({"orders": orders.len(), "layouts": layouts, "gates": gates, "plans": plans, "nominal_product": total, "not_covered": "all 10! orders of the full block set"}),
     );
